@@ -487,7 +487,8 @@ func encode(g geom.T, opts ...EncodeGeometryOption) (*Geometry, error) {
 // Marshal marshals an arbitrary geometry to a []byte.
 func Marshal(g geom.T, opts ...EncodeGeometryOption) ([]byte, error) {
 	if g == nil {
-		return nullGeometry, nil
+		// A fresh copy: the result belongs to the caller, who may modify it.
+		return append([]byte(nil), nullGeometry...), nil
 	}
 	geojson, err := Encode(g, opts...)
 	if err != nil {
